@@ -1,0 +1,23 @@
+//go:build verif
+
+// Round 6, area L: ClientStats.UnmarshalJSON (C18 "upstream JSON decoding"), checked by nsqvc. Comment-only file.
+// Assumed library contract: (time.Time).Truncate inside this package (lib/trusted/r6L.spec); time.Unix / Sub / Now: ideal clock (std.spec, mlookupd.spec).
+
+package clusterinfo
+
+// The decoded document is a local struct of a re-typed copy of ClientStats (to stop json.Unmarshal recursing); on success EVERY field of
+// it reaches *s unchanged - the conversion between the two named struct types drops nothing - and the one derived field,
+// ConnectedDuration, is the time from the decoded connect timestamp (seconds) to the current clock reading cut to a whole second:
+// in (now - connect - 1s, now - connect]. A decode error is returned and leaves *s alone.
+//@ func (s *ClientStats) UnmarshalJSON(b []byte) error
+//@   props C18
+//@   nochan
+//@   requires s != nil
+//@   ensures[decoded-identity-kept] result == nil ==> s.Node == final(ss).Node && s.RemoteAddress == final(ss).RemoteAddress && s.Version == final(ss).Version && s.ClientID == final(ss).ClientID && s.Hostname == final(ss).Hostname && s.UserAgent == final(ss).UserAgent
+//@   ensures[decoded-counters-kept] result == nil ==> s.ConnectTs == final(ss).ConnectTs && s.InFlightCount == final(ss).InFlightCount && s.ReadyCount == final(ss).ReadyCount && s.FinishCount == final(ss).FinishCount && s.RequeueCount == final(ss).RequeueCount && s.MessageCount == final(ss).MessageCount && s.SampleRate == final(ss).SampleRate && s.Deflate == final(ss).Deflate
+//@   ensures[decoded-flags-and-topology-kept] result == nil ==> s.Snappy == final(ss).Snappy && s.Authed == final(ss).Authed && s.AuthIdentity == final(ss).AuthIdentity && s.AuthIdentityURL == final(ss).AuthIdentityURL && s.NodeTopologyRegion == final(ss).NodeTopologyRegion && s.NodeTopologyZone == final(ss).NodeTopologyZone && s.TopologyRegion == final(ss).TopologyRegion && s.TopologyZone == final(ss).TopologyZone
+//@   ensures[decoded-tls-kept] result == nil ==> s.TLS == final(ss).TLS && s.CipherSuite == final(ss).CipherSuite && s.TLSVersion == final(ss).TLSVersion && s.TLSNegotiatedProtocol == final(ss).TLSNegotiatedProtocol && s.TLSNegotiatedProtocolIsMutual == final(ss).TLSNegotiatedProtocolIsMutual
+//@   ensures[decode-error-changes-nothing] result != nil ==> s.Node == old(s.Node) && s.RemoteAddress == old(s.RemoteAddress) && s.Version == old(s.Version) && s.ClientID == old(s.ClientID) && s.Hostname == old(s.Hostname) && s.UserAgent == old(s.UserAgent) && s.ConnectTs == old(s.ConnectTs) && s.InFlightCount == old(s.InFlightCount) && s.ReadyCount == old(s.ReadyCount) && s.FinishCount == old(s.FinishCount) && s.RequeueCount == old(s.RequeueCount) && s.MessageCount == old(s.MessageCount) && s.SampleRate == old(s.SampleRate) && s.Deflate == old(s.Deflate) && s.Snappy == old(s.Snappy) && s.Authed == old(s.Authed) && s.AuthIdentity == old(s.AuthIdentity) && s.AuthIdentityURL == old(s.AuthIdentityURL) && s.NodeTopologyRegion == old(s.NodeTopologyRegion) && s.NodeTopologyZone == old(s.NodeTopologyZone) && s.TopologyRegion == old(s.TopologyRegion) && s.TopologyZone == old(s.TopologyZone) && s.TLS == old(s.TLS) && s.CipherSuite == old(s.CipherSuite) && s.TLSVersion == old(s.TLSVersion) && s.TLSNegotiatedProtocol == old(s.TLSNegotiatedProtocol) && s.TLSNegotiatedProtocolIsMutual == old(s.TLSNegotiatedProtocolIsMutual) && s.ConnectedDuration == old(s.ConnectedDuration)
+//@   ensures[connected-since-the-decoded-timestamp] result == nil ==> s.ConnectedDuration <= unixNano(lastNow) - s.ConnectTs * 1000000000 && s.ConnectedDuration > unixNano(lastNow) - s.ConnectTs * 1000000000 - 1000000000
+//@   ensures[clock-read-only-on-success] result != nil ==> lastNow == old(lastNow)
+//@   modifies *s, lastNow
